@@ -227,8 +227,26 @@ def main(argv=None):
     cases: list[Case] = []
     gen_errors = []
     t_gen = time.time()
+    def all_descs():
+        """the property's own cases, plus - for read-only properties that build their trees with build.build and
+        declare `post_variants` - copies of some of them whose tree is mutated after the build (build.apply_post)"""
+        import build as _B
+        pv = getattr(prop, "post_variants", None)
+        want = (pv.get(args.tier, 0) if isinstance(pv, dict) else 0)
+        rng2 = random.Random(seed * 7919 + 13)
+        pool = []
+        for d in prop.descs(args.tier, rng):
+            yield d
+            if want and isinstance(d, dict) and d.get("nodes") and "post" not in d and _B.nodes_size(d["nodes"]) >= 2:
+                pool.append(d)
+        if want and pool:
+            for d in rng2.sample(pool, min(want, len(pool))):
+                n = _B.nodes_size(d["nodes"])
+                yield dict(d, post=_B.random_post(rng2, n, len(d.get("univ", [])) or 1, bool(d.get("typed")),
+                                                  allowed=getattr(prop, "post_ops", None)))
+
     try:
-        for desc in prop.descs(args.tier, rng):
+        for desc in all_descs():
             try:
                 cases.append(prop.run(desc))
             except Exception as e:  # harness must never die silently on one case
@@ -243,10 +261,22 @@ def main(argv=None):
     coq_err = ""
     t_coq = time.time()
     # the case module is built on its own: Properties/Cxx.v need not import it, and it must run even when a proof broke
-    model_runnable = build(prop.case_vo)[0]
-    if cases and model_runnable:
+    # cases are grouped by the case module / entry point that evaluates them (the property's own, or a part's)
+    groups: dict[tuple, list[int]] = {}
+    for i, c in enumerate(cases):
+        groups.setdefault((c.case_module or prop.case_module, c.run_fn or prop.run_fn, c.case_vo or prop.case_vo), []).append(i)
+    if not groups:
+        groups[(prop.case_module, prop.run_fn, prop.case_vo)] = []
+    errs = []
+    for gi, ((cmod, rfn, cvo), idxs) in enumerate(groups.items()):
+        if not build(cvo)[0]:
+            errs.append(f"model does not build ({cvo}); correspondence not evaluated")
+            continue
+        if not idxs:
+            continue
         pairs = []
-        for c in cases:
+        for i in idxs:
+            c = cases[i]
             try:
                 pairs.append((c.coq_input, H.sx(c.impl_obs)))
             except (RecursionError, TypeError, ValueError) as e:
@@ -254,10 +284,12 @@ def main(argv=None):
                 if not c.oracle_fail:
                     c.oracle_fail = f"observation: the observed state cannot be rendered ({type(e).__name__}): cyclic or malformed node graph"
                 pairs.append((c.coq_input, "L [A (-424242)]"))
-        model_fail_idx, coq_err = H.check_cases_in_coq(pid, prop.case_module, prop.run_fn, pairs,
-                                                       shard=getattr(prop, "shard", 300), jobs=12)
-    elif cases:
-        coq_err = "model does not build; correspondence not evaluated"
+        f, e = H.check_cases_in_coq(pid, cmod, rfn, pairs, shard=getattr(prop, "shard", 300), jobs=12, tag=f"g{gi}" if gi else "")
+        model_fail_idx.extend(idxs[j] for j in f)
+        if e:
+            errs.append(e)
+    model_fail_idx.sort()
+    coq_err = "\n".join(errs)
     t_coq = time.time() - t_coq
     if coq_err:
         broken_obligations.append("correspondence could not be evaluated: " + coq_err[-500:])
@@ -309,12 +341,12 @@ def main(argv=None):
 
             def model_disagrees(desc):
                 c = prop.run(desc)
-                f, e = H.check_cases_in_coq(pid, prop.case_module, prop.run_fn, [(c.coq_input, H.sx(c.impl_obs))], tag="shr")
+                f, e = H.check_cases_in_coq(pid, c.case_module or prop.case_module, c.run_fn or prop.run_fn, [(c.coq_input, H.sx(c.impl_obs))], tag="shr")
                 return bool(f)
 
             d = shrink(prop, cases[i].desc, model_disagrees, budget=40)
             c = prop.run(d)
-            model_out = H.eval_in_coq(prop.case_module, f"{prop.run_fn} {c.coq_input}")[-4000:]
+            model_out = H.eval_in_coq(c.case_module or prop.case_module, f"{c.run_fn or prop.run_fn} {c.coq_input}")[-4000:]
             first = dict(case=d, impl_obs=c.impl_obs, model_obs_raw=model_out)
         what = broken_obligations[:] + ([f"correspondence {prop.case_module}.{prop.run_fn} = implementation fails on {len(model_only)} case(s)"] if model_only else [])
         path = write_replay(pid, f"{seed}-unproved", dict(
@@ -394,10 +426,10 @@ def replay(prop, path):
     c = prop.run(desc)
     print("case:", json.dumps(desc))
     print("implementation:", json.dumps(c.impl_obs, default=str)[:3000])
-    f, e = H.check_cases_in_coq(prop.id, prop.case_module, prop.run_fn, [(c.coq_input, H.sx(c.impl_obs))], tag="rp")
+    f, e = H.check_cases_in_coq(prop.id, c.case_module or prop.case_module, c.run_fn or prop.run_fn, [(c.coq_input, H.sx(c.impl_obs))], tag="rp")
     print("model agrees with implementation:", not f and not e)
     if f:
-        print("model:", H.eval_in_coq(prop.case_module, f"{prop.run_fn} {c.coq_input}")[-3000:])
+        print("model:", H.eval_in_coq(c.case_module or prop.case_module, f"{c.run_fn or prop.run_fn} {c.coq_input}")[-3000:])
     print("oracle verdict:", c.oracle_fail or "property holds on this case")
     return 1 if (c.oracle_fail or f) else 0
 
